@@ -587,4 +587,4 @@ class Block(Entity):
     @metadata.deleter
     def metadata(self):
         if "metadata" in self._h5group:
-            self._h5group.delete("metadata")
+            self._h5group.delete("metadata", False)
